@@ -187,13 +187,9 @@ def _parse_body(blt_lines: Iterable[str],
                 raise BLTParseError(f'ballot weight <1: {line!r}')
             if ballot not in ballots:
                 ballots[ballot] = 0
-            if isinstance(weight, Fraction) != isinstance(
-                ballots[ballot], Fraction
-            ):
-                # Decimal and Fraction do not add; Fraction holds both exactly.
-                weight = Fraction(weight)
-                ballots[ballot] = Fraction(ballots[ballot])
-            ballots[ballot] += weight
+            ballots[ballot] = votelib.io.core.add_weights(
+                ballots[ballot], weight
+            )
             ballots_encountered = True
     raise BLTParseError('incomplete BLT file:'
                         ' EOF before ballot list terminator')
